@@ -231,6 +231,27 @@ _EXTRA6 = {
     'C19': 'the old-word next pair is skipped between two adjacent occurrences; corpus reader has no truncating adaptor; unicode::normalize always normalises; text::clean and the CharString primitive (R-C11-1/2/6 re-evaluated)',
     'C20': 'unicode::normalize always normalises (identity only under IsNormalized::Yes); text::clean and the CharString primitive (R-C11-1/2/6 re-evaluated); split_words keeps every word and every part',
 }
+_EXTRA7 = {
+    'C01': 'decoding is verbatim (R-C04-11 re-evaluated)',
+    'C02': 'decoding is verbatim (R-C04-11 re-evaluated)',
+    'C03': 'a found neighbour candidate is pushed with no further test in between; its id is the unfiltered table entry',
+    'C04': 'de_tokenize / join_tokens / join_parts apply no text transformation to the decoded text',
+    'C07': 'no nth / advance_by override that continues after an inner bulk skip came back empty',
+    'C08': 'no nth / advance_by override that continues after an inner bulk skip came back empty',
+    'C10': 'every comparison of the two lengths in repair() leads to Err on its mismatch edge',
+    'C13': 'the DP recurrence with its whitespace restriction (R-C12-2 re-evaluated)',
+    'C14': 'the shared whitespace predicate (R-C11-1 re-evaluated)',
+    'C15': 'every return hands back the caller\'s exclusion set; rng-drawing loops have an exit that does not depend on the draw',
+    'C16': 'the dispatcher windows() passes the fields of the configuration to char / byte once and returns their result as it is',
+    'C17': 'plane 2 of the sparse matrix is a per-item counter (reset per item, + group_len per group)',
+    'C19': 'the old-word next pair is skipped only when a full occurrence of the merged pair follows',
+    'C20': 'no line is dropped or limited inside the per-file closure before take(max_sequences); the word-part pattern is anchored with \\b on both sides',
+}
+for _k in ['C%02d' % _i for _i in range(1, 21)]:
+    _hs = 'no thread_local / interior-mutable static in the files of the property (results are functions of the arguments)'
+    _EXTRA7[_k] = (_EXTRA7[_k] + '; ' + _hs) if _k in _EXTRA7 else _hs
+for _k, _v in _EXTRA7.items():
+    _EXTRA6[_k] = (_EXTRA6[_k] + '; ' + _v) if _k in _EXTRA6 else _v
 for _k, _v in _EXTRA6.items():
     _EXTRA5[_k] = (_EXTRA5[_k] + '; ' + _v) if _k in _EXTRA5 else _v
 for _k, _v in _EXTRA3.items():
